@@ -5,6 +5,8 @@ set -e
 cd "$(dirname "$0")"
 export GOFLAGS=-mod=mod GOPROXY=off GOSUMDB=off GOTOOLCHAIN=local GOWORK=off
 GO=${VERIF_GO:-go1.26.8}
+# go/build (used by the weaver's type checker) runs plain `go`: make that the same toolchain
+if [ -d /opt/veriftools/go1.26.8/bin ]; then PATH=/opt/veriftools/go1.26.8/bin:$PATH; export PATH; fi
 mkdir -p bin
 if ! $GO build -o bin/verif ./cmd/verif 2>bin/build.log; then
   cat bin/build.log >&2
